@@ -6,6 +6,7 @@ bitmap bytes are symbolic, the iterator's position (after any sequence of skips 
 enumerated, the inner iterator is a contract that appends `n` arbitrary values to the array builder.  Obligation: after
 the call the builder's validity bits are exactly bits [pos, pos + n) of the bitmap (LSB-first within each byte) and the
 position has advanced by n."""
+import json
 import itertools, re, time
 from z3 import BitVec, Extract, And, BoolVal, is_true
 from vlib.common import Inconclusive
@@ -696,3 +697,115 @@ def replay_char(wit):
     except Exception as ex:
         return {'reproduced': None, 'line': 'native replay unavailable: %s' % ex}
     return {'reproduced': True if line.startswith('REPLAY panic') else (False if line.startswith('REPLAY ok') else None), 'line': line}
+
+
+# ------------------------------------------------------------------------------------------------ RLE block *builder*
+_RLEB = {}
+
+
+@crate_contract(r'^<B as block::BlockBuilder<A>>::append$', 'the inner block builder of an RLE block appends the (possibly NULL) run value it is given')
+def _rleb_inner_append(vm, m, callee, args):
+    from .vm import UNIT
+    _RLEB['items'].append((tuple(m.pc), args[1]))
+    return UNIT
+
+
+def run_rle_builder(rep, thorough):
+    """RleBlockBuilder::append from MIR (generic in the array and the inner builder): N symbolic, possibly NULL values are
+    appended to an empty builder; the run values handed to the inner builder, repeated by the recorded run lengths (the
+    last run being `cur_count`, which `finish` pushes), must be exactly the input sequence, and every count >= 1.
+    Together with the RLE iterator obligations (any counts, any run values) and the varint codec (Kani) this closes the
+    round trip of run-length blocks except for the byte layout written by `finish` / read by `decode_rle_block`."""
+    from z3 import Bool, And, Not, Or
+    t0 = time.time()
+    try:
+        vm = make_vm(True)
+        f_app = find_fn(vm.prog, r'^rle_block_builder::<impl at src/storage/secondary/block/rle_block_builder\.rs:\d+:\d+: \d+:\d+>::append$')
+    except (Inconclusive, Unsupported, MirSyntax) as ex:
+        rep.fail_inconclusive('RleBlockBuilder: %s' % ex)
+        return
+    n_ob = 0
+    for n in ((1, 2, 3, 4) if thorough else (1, 2, 3)):
+        desc = 'RleBlockBuilder::append x %d' % n
+        vals = [(Bool('bv_valid%d' % i), BitVec('bv_raw%d' % i, 32)) for i in range(n)]
+        st = Struct('RleBlockBuilder', [Opaque('inner-builder'), Seq([], 'vec'), Enum('Option', 'None'), mk_int(0, 'u32')])
+        paths = [((), Ref(Cell(st)), [])]          # (pc, builder ref, inner items so far)
+        try:
+            for i, (v, r) in enumerate(vals):
+                nxt = []
+                for pc, bref, inner in paths:
+                    for present in (True, False):
+                        item = Enum('Option', 'Some', [Ref(Cell(BV(r, True)))]) if present else Enum('Option', 'None')
+                        import copy
+                        b2 = copy.deepcopy(bref)
+                        _RLEB['items'] = []
+                        outs = vm.run(f_app, [b2, item], pc=tuple(pc) + ((v,) if present else (Not(v),)))
+                        for o in outs:
+                            if o.kind != 'ret':
+                                nxt.append((tuple(o.pc), None, inner))
+                                continue
+                            added = [it for p_, it in _RLEB['items'] if set(map(str, p_)) <= set(map(str, o.pc))]
+                            nxt.append((tuple(o.pc), o.args[0], inner + [(present, r) for _ in added]))
+                paths = nxt
+        except (Unsupported, MirSyntax, KeyError, IndexError, AttributeError, TypeError) as ex:
+            rep.fail_inconclusive('%s: %s: %s' % (desc, type(ex).__name__, str(ex)[:300]))
+            continue
+        rep.cov['programs'] += 1
+        for pc, bref, inner in paths:
+            n_ob += 1
+            if bref is None:
+                stv, m = satisfiable(list(pc))
+                if stv == 'unsat':
+                    rep.obligation(True)
+                    continue
+                out = rep.counterexample('rle-builder:panics', '%s panics' % desc, {'desc': desc}, None)
+                rep.obligation(out == 'known')
+                continue
+            b = vm.deref_value(bref)
+            counts = [concrete_int(vm.deref_value(c)) for c in vm.deref_value(b.fields[1]).items] + [concrete_int(vm.deref_value(b.fields[3]))]
+            if any(c is None for c in counts):
+                rep.fail_inconclusive('%s: symbolic run length' % desc)
+                continue
+            shape_ok = len(counts) == len(inner) and all(c >= 1 for c in counts) and sum(counts) == n
+            if shape_ok:
+                expanded = [inner[j] for j, c in enumerate(counts) for _ in range(c)]
+                claim = And([And(BoolVal(p) == v, Or(Not(v), rr == r)) for (p, rr), (v, r) in zip(expanded, vals)])
+            else:
+                claim = BoolVal(False)
+            stv, m = check(list(pc), claim)
+            if stv == 'unsat':
+                rep.obligation(True)
+                rep.sample({'obligation': desc, 'verdict': 'run values x run lengths %s expand to the appended sequence' % counts}, cap=4)
+                continue
+            if stv == 'unknown':
+                rep.obligation(False)
+                rep.fail_inconclusive('solver unknown: ' + desc)
+                continue
+            w = {'values': [None if not is_true(m.eval(v, model_completion=True)) else m.eval(r, model_completion=True).as_signed_long() for v, r in vals],
+                 'run_lengths': counts, 'runs_handed_to_inner_builder': len(inner)}
+            rp = replay_rle_builder(w)
+            what = '%s: appended %s, builder holds %d run value(s) with lengths %s; end to end: %s' % (desc, w['values'], len(inner), counts, json.dumps(rp['how'])[:200])
+            out = rep.counterexample('rle-builder:runs', what[:500], {'witness': w, 'replay': rp}, rp['reproduced'])
+            rep.obligation(out == 'known')
+    rep.solver(time.time() - t0, n_ob)
+    rep.cov['functions_encoded'] = list(rep.cov.get('functions_encoded', [])) + ['RleBlockBuilder::append (from MIR)']
+    if isinstance(rep.cov.get('bounds'), dict):
+        rep.cov['bounds']['rle block builder'] = '1-%d appended values, each NULL or any i32; inner builder a contract' % (4 if thorough else 3)
+
+
+def replay_rle_builder(w):
+    """The same appends on the real types: RleBlockBuilder over a nullable plain block, read back through the real
+    RleBlockIterator by the native replay binary (values renamed to small integers keeping their equalities)."""
+    from kani import run as krun
+    names = {}
+    vals = []
+    for v in w['values']:
+        if v is None:
+            vals.append(255)
+        else:
+            vals.append(names.setdefault(v, len(names) + 1))
+    try:
+        line = krun.native_replay('c06_rle_replay', [[1] * len(vals), vals, [0], [0]])
+    except Exception as ex:
+        return {'reproduced': None, 'how': {'note': 'native replay unavailable: %s' % ex}}
+    return {'reproduced': True if line.startswith('REPLAY panic') else (False if line.startswith('REPLAY ok') else None), 'how': {'native': line[:300]}}
